@@ -10,6 +10,14 @@
      ev.kind "real" | "blank",  ev.h, ev.w   the returned array
      px                                      channel 0 of the returned crop (rows of integers), [] when not recorded
      ref                                     for "same pixels" pairs: the crop of the base configuration, [] otherwise
+     corners                                 the four corners of the coordinate grid get_crop_inputs returned, <<top-left, top-right,
+                                             bottom-left, bottom-right>>, each <<x, y>> in 1/16 px; <<>> when it raised / was not seen
+
+   Besides the configurations TLC enumerates (Cropper!Init) the driver records SESSIONS: sampled baselines - among them dense ones
+   of 65 .. some thousand points, far beyond the 2..5 points of the enumerated spaces - cropped by long-lived cropper objects of
+   several configurations one after the other (also right after a call that fails).  Nothing of their verdict is computed in
+   Python: the points themselves are in the trace and the operators below (Degenerate, WidthOK, EndsClause) are evaluated by TLC
+   on them; only the enumeration is replaced by sampling (Isqrt of Cropper covers chords up to 46340 px for that purpose).
 
    Level = "property": acceptance = the statement of C10 restricted to what is modelled (never an exception, height,
    blank => degenerate, width clause, pixel clauses of the grid family at sample positions inside the page, equality
@@ -57,6 +65,21 @@ ColsClause(num(_, _), tolpx) ==
 RefClause == /\ Len(Tr.ref) = Len(PX)
              /\ \A r \in 1..Len(PX) : /\ Len(Tr.ref[r]) = Len(PX[r])
                                       /\ \A c \in 1..Len(PX[r]) : Abs(PX[r][c] - Tr.ref[r][c]) <= Tol
+(* "columns advance uniformly along the baseline from its FIRST to its LAST point": the first / last column of the coordinate
+   grid.  Rows run linearly from asc above to desc below the baseline, so the baseline point of a column is
+   (desc * top + asc * bottom) / (asc + desc)  (integer division: 1/16 px).  Measured ALONG the chord (the fitted curve may leave
+   the end points sideways - a straight fit of a curved baseline - which the statement does not exclude): the real code ends at most
+   1 px before the last point (integer steps of np.arange), tolerance EndTol = 3 px; a position more than 1000 px from the end
+   point in x or y fails outright (which also keeps the products below 2^31).                                              *)
+EndTol == 3
+HasCorners == Len(Tr.corners) = 4
+BaseAt(top, bot) == <<(desc * top[1] + asc * bot[1]) \div HS, (desc * top[2] + asc * bot[2]) \div HS>>
+EndOK(e, P) == LET ddx == e[1] - 16 * P[1]
+                   ddy == e[2] - 16 * P[2]
+               IN /\ Abs(ddx) <= 16 * 1000 /\ Abs(ddy) <= 16 * 1000
+                  /\ Abs(ddx * DX + ddy * DY) <= 16 * EndTol * (Chord + 1)
+EndsClause == /\ EndOK(BaseAt(Tr.corners[1], Tr.corners[3]), First)
+              /\ EndOK(BaseAt(Tr.corners[2], Tr.corners[4]), Last)
 \* detailed grid model
 ExactWidth == W \in Widths
 ExactPath == IF NeedsGeneral THEN Tr.ev.path = "general" ELSE (Tr.ev.path = "fast" \/ Touches)
@@ -72,6 +95,7 @@ FirstFailing ==
     ELSE IF HasPx /\ kind' = "real" /\ IsGrid /\ ~Degenerate /\ page.kind = "rows" /\ ~RowsClause THEN 4
     ELSE IF HasPx /\ kind' = "real" /\ IsGrid /\ ~Degenerate /\ page.kind = "cols" /\ ~ColsClause(IdealXNum, 2) THEN 5
     ELSE IF HasPx /\ HasRef /\ ~RefClause THEN 6
+    ELSE IF HasCorners /\ kind' = "real" /\ ~Degenerate /\ ~EndsClause THEN 11   \* band starts / ends at the first / last point
     ELSE IF Level = "exact" /\ kind' = "real" /\ IsGrid /\ ~Degenerate /\ ~ExactWidth THEN 7
     ELSE IF Level = "exact" /\ kind' = "real" /\ IsGrid /\ ~Degenerate /\ ~ExactPath THEN 8
     ELSE IF Level = "exact" /\ HasPx /\ kind' = "real" /\ IsGrid /\ ~Degenerate /\ ~ExactOutside THEN 9
